@@ -572,6 +572,11 @@ def gen_c05(rnd, n, thorough=False):
                 if rnd.chance(0.5):
                     lines += ["disk f", "drop f", "disk f", "open f"]
                 op = 'createover'
+            elif r < 0.87:
+                # Sync on a handle that was closed (the deferred calls in the wrong order): it cannot have written
+                # anything and must not say it did; the file is the last synced state
+                lines += ["syncclosed f", "disk f", "open f"]
+                op = 'sync_after_close'
             elif r < 0.9:
                 lines += ["drop f", "disk f", "open f"]
                 op = 'abandon'
